@@ -108,7 +108,41 @@ def contract_raw(rng, inv, outv, na=(0, 2), ng=(1, 3), dyadic=0.0, nmax=3, band=
     return {"inv": list(inv), "outv": list(outv), "a": a, "g": g}
 
 
-SCHEMAS = ["indep", "cascade", "cascade_rev", "shared", "casc_shared", "feedback", "feedback_free", "fanout", "casc_extra", "sibling", "fanout_coupled"]
+def column_heavy_rows(rng, ys, sg, extra=None):
+    """three rows over ys: every row but one leans on the same column; each lean alone is dominated by
+    the coefficient a term may have there, together they are not (tactics 1/3 must reject by the ACCUMULATED test)"""
+    jstar = rng.randrange(len(ys))
+    rows = []
+    unit = rng.random() < 0.5           # all term coefficients 1, leans of 7/8 -- or coefficients 2 / 3, leans of 1
+    for i_, y in enumerate(ys):
+        co = {y: sg}
+        if i_ != jstar:
+            co[ys[jstar]] = sg * (0.875 if unit else rng.choice([1, 1, 0.75]))
+        if extra and rng.random() < 0.4:
+            co[extra] = rng.choice([-1, 1])
+        rows.append((co, rng.randint(0, 3)))
+    coef = {y: (1 if unit else 2) for y in ys}
+    coef[ys[jstar]] = 1 if unit else 3
+    return rows, coef
+
+
+def fanout3_raw(rng):
+    ys = ["y1", "y2", "y3"]
+    sg = rng.choice([1, -1])
+    rows, coef = column_heavy_rows(rng, ys, sg, "i")
+    d1 = {"inv": ["i"], "outv": list(ys), "a": [({"i": 1}, 4), ({"i": -1}, 2)], "g": rows}
+    if rng.random() < 0.5:
+        # the consumer ASSUMES a bound on a combination of the three (refined through the producer's rows)
+        d2 = {"inv": list(ys), "outv": ["p"], "a": [({y: sg * c for y, c in coef.items()}, rng.randint(8, 14))],
+              "g": [({"p": 1, "y1": -1}, 2)]}
+    else:
+        # the consumer GUARANTEES its output against that combination (relaxed through the producer's rows)
+        d2 = {"inv": list(ys), "outv": ["p"], "a": [], "g": [dict({"p": sg}, **{y: -sg * c for y, c in coef.items()}), 0]}
+        d2["g"] = [(d2["g"][0], rng.randint(0, 3))]
+    return d1, d2
+
+
+SCHEMAS = ["indep", "cascade", "cascade_rev", "shared", "casc_shared", "feedback", "feedback_free", "fanout", "casc_extra", "sibling", "fanout_coupled", "fanout3"]
 
 
 def pair_raw(rng, schema, dyadic=0.0):
@@ -141,6 +175,8 @@ def pair_raw(rng, schema, dyadic=0.0):
     elif schema == "fanout":
         d1 = contract_raw(rng, ["i"], ["y", "z"], ng=(2, 3), dyadic=dyadic, band=B)
         d2 = contract_raw(rng, ["y", "z"], ["p"], na=(1, 2), dyadic=dyadic, band=B)
+    elif schema == "fanout3":
+        d1, d2 = fanout3_raw(rng)
     elif schema == "fanout_coupled":
         # the producer's guarantees couple its two outputs (rows of a 2x2 system, dominant or not);
         # the consumer's guarantee needs a bound on a combination of both: tactics 1 / 3 with two internal variables
